@@ -51,7 +51,11 @@ Has(v) == Len(v) = 2
 (* ---- rounding ---------------------------------------------------------------------------- *)
 RFloor(a) == IF RBad(a) THEN RNaN ELSE RInt(a[1] \div a[2])          \* \div rounds towards -infinity
 RoundHalfUp(a) == RFloor(RAdd(a, RHalf))                             \* otRound
-Within(a, b, tol) == LET d == RSub(a, b) IN ROk(d) /\ RLe(RAbs(d), tol)
+(* |a - b| <= tol, decided without forming a - b: a computed value may have a large denominator,
+   the wanted value and the tolerance are plain, and comparisons never overflow (Rat) *)
+Within(a, b, tol) == LET lo == RSub(b, tol) hi == RAdd(b, tol) IN
+                     ROk(a) /\ ROk(lo) /\ ROk(hi) /\ RLe(lo, a) /\ RLe(a, hi)
+WithinBad(a, b, tol) == RBad(a) \/ RBad(RSub(b, tol)) \/ RBad(RAdd(b, tol))
 
 (* ---- axes ------------------------------------------------------------------------------------ *)
 UserTriple(ax) == <<ax.min, ax.def, ax.max>>
